@@ -118,14 +118,18 @@ impl PxWorld {
                     Some(x) => x,
                     None => return lock_line(rng),
                 };
-                let la = Self::amount_of(rng, &have);
+                let mut la = Self::amount_of(rng, &have);
                 // the matching amount of the other token at the current price, sometimes off
-                let q = if s.pair_base.is_zero() { one.clone() } else { &la * &s.pair_other / &s.pair_base };
-                let oa = match rng.below(6) {
-                    0 => q.clone().max(one.clone()),
-                    1 => &q * 2u32 + &one,
-                    2 => (&q / 2u32).max(one.clone()),
-                    3 => one.clone(),
+                let mut q = if s.pair_base.is_zero() { one.clone() } else { &la * &s.pair_other / &s.pair_base };
+                if q.is_zero() && !s.pair_other.is_zero() && rng.chance(5, 6) {
+                    la = ((&s.pair_base / &s.pair_other + &one) * rng.range(1, 50)).min(have.clone());
+                    q = &la * &s.pair_other / &s.pair_base;
+                }
+                let oa = match rng.below(12) {
+                    0 | 1 => q.clone().max(one.clone()),
+                    2 | 3 => &q * 2u32 + &one,
+                    4 | 5 => (&q / 2u32).max(one.clone()),
+                    6 => one.clone(),
                     _ => (&q + rng.big_range(&BigUint::zero(), &(&q / 10u32 + &one))).max(one.clone()),
                 };
                 let (mb, mo) = match rng.below(8) {
@@ -267,11 +271,11 @@ impl World for PxWorld {
             1 => pow10(24) * rng.range(1, 99),
             _ => rng.magnitude(20) + BigUint::from(1001u32),
         };
-        let pb = match rng.below(5) {
+        let pb = match rng.below(10) {
             0 => BigUint::from(rng.range(1001, 50_000)),
             1 => &pa * rng.range(1, 1000),
             2 => (&pa / rng.range(1, 1000)).max(BigUint::from(1001u32)),
-            3 => rng.magnitude(20) + BigUint::from(1001u32),
+            3 => pa.clone(),
             _ => (&pa * rng.range(1, 40) / rng.range(1, 40)).max(BigUint::from(1001u32)),
         };
         format!("users={users} order={order} pen={pen} minep={minep} boost={boost} fee={fee} epoch={epoch} perblock={perblock} pool={pa},{pb}")
